@@ -413,11 +413,11 @@ func main() {
 	run.Assume("digest-addressed content found in both members is the same content (true by content addressing); manifest media types may differ between members and are not compared in A")
 	run.Assume("after an injected member failure the members may diverge; equality of members is asserted only for fault-free prefixes")
 
-	nr := run.N(120, 20000)
+	nr := run.N(120, 6000)
 	for i := 0; i < nr; i++ {
 		readPhase(run, i)
 	}
-	nw := run.N(400, 10000)
+	nw := run.N(400, 8000)
 	for i := 0; i < nw; i++ {
 		writeHistory(run, i)
 	}
